@@ -7,6 +7,7 @@
 import ClairModel.Proofs.TarFS
 import ClairModel.Proofs.TarFSInv
 import ClairModel.Proofs.TarFSSub
+import ClairModel.Proofs.TarFSExtract
 
 namespace ClairModel.Props.C11
 open ClairModel ClairModel.TarFS
@@ -117,5 +118,99 @@ theorem acyclic_chain_within_budget (fs : FS) (idxs : List Nat) (hnd : idxs.Nodu
 theorem open_cycle_is_error (fs : FS) (name : Bytes)
     (h : ∀ m, ∃ t, linkIter fs m name = some t) : openFS fs name = .err .invalid :=
   openAux_endless _ name h
+
+/-- View = extraction, for link-free archives. `extract ms = some t` says: `ms`
+    holds only directory and regular-file members, no regular file is used as
+    a directory, and names repeat only as directory over directory or file
+    over file; `t` is then the tree a sequential extraction into an empty root
+    creates (Model/TarFSExtract.lean: implied parents made, a later file
+    replaces the content of an earlier one). For every such archive — any
+    member order, any names — New succeeds and for every name `k` the view has
+    a key `k` exactly when the extraction created `k`: a directory inode for a
+    directory, and for a file a regular inode whose segment holds the bytes of
+    the last occurrence. Moreover the view is tree-consistent (`TreeOK`: the
+    lookup table and the children tables describe the same tree).
+
+    Partial: archives with links are not covered by this theorem (the
+    correspondence run and the extraction oracle of the harness cover them;
+    see the findings for what fails there). -/
+theorem view_eq_extract_partial (ms : List Member) (t : XTree) (hx : extract ms = some t) :
+    ∃ fs, newFS ms = .ok fs ∧ TreeOK [] fs ∧
+      ∀ k, match alGet t k with
+        | none => fs.get? k = none
+        | some .dir => ∃ i, fs.get? k = some i ∧ (fs.ino i).kind = .dir
+        | some (.file d) => ∃ i, fs.get? k = some i ∧ (fs.ino i).kind = .reg ∧ (fs.ino i).data = some d := by
+  obtain ⟨fs, hnew, hT, hR⟩ := newFS_plain ms t hx
+  refine ⟨fs, hnew, hT, fun k => ?_⟩
+  have := hR k (by simp)
+  cases hk : alGet t k with
+  | none => rw [hk] at this; exact node?_none this
+  | some node =>
+    rw [hk] at this
+    cases node with
+    | dir => exact node?_dir this
+    | file d => exact node?_file hT this
+
+/-- In the reference, a regular-file member determines the content of its
+    name: the last occurrence wins. -/
+theorem extract_last_occurrence (t t' : XTree) (m : Member) (hk : m.kind = .reg)
+    (h : xInsert t m = some t') : alGet t' (normPath m.name) = some (.file m.data) := by
+  unfold xInsert at h
+  simp only [hk] at h
+  split at h
+  · cases h
+  · split at h
+    · cases h
+    · split at h
+      · cases h
+      · cases h; rw [alGet_alSet]; simp
+
+/-- Consistent Stat: on a tree-consistent view (in particular the view of
+    every archive covered by `view_eq_extract_partial`) `Stat(p)` of a valid
+    path is the header of the key `p`, and not-exist when `p` is not a key;
+    a path that is not valid is refused with ErrInvalid. -/
+theorem view_stat (fs : FS) (h : TreeOK [] fs) (p : Bytes) :
+    statFS fs p =
+      if validPath p then
+        match fs.get? p with
+        | some i => .ok (fs.info i)
+        | none => .error .notexist
+      else .error .invalid := by
+  by_cases hp : validPath p = true
+  · simp only [hp, if_true]; exact h.stat hp
+  · simp only [hp]
+    simp only [Bool.not_eq_true] at hp
+    simp [statFS, getInode_invalid fs hp]
+
+/-- Consistent Open: a regular file reads back the bytes of its inode's
+    segment, a directory lists its entries, exactly as ReadDir does. -/
+theorem view_open (fs : FS) (h : TreeOK [] fs) (p : Bytes) (hp : validPath p = true) :
+    openFS fs p = match fs.get? p with
+      | none => .err .notexist
+      | some i =>
+        match (fs.ino i).kind, (fs.ino i).data with
+        | .dir, _ => .dir (fs.info i) (fs.entries i)
+        | _, some d => .file (fs.info i) d
+        | _, none => .err .other :=
+  h.open hp
+
+theorem view_readdir (fs : FS) (h : TreeOK [] fs) (p : Bytes) (hp : validPath p = true) :
+    readDirFS fs p = match fs.get? p with
+      | some i => .ok (fs.entries i)
+      | none => .error .notexist :=
+  h.readDir hp
+
+/-- A directory lists exactly the keys directly below it, under their base
+    names and with their types. -/
+theorem view_readdir_entries (fs : FS) (h : TreeOK [] fs) (p : Bytes) (j : Nat)
+    (hj : fs.get? p = some j) (e : Entry) :
+    e ∈ fs.entries j ↔ ∃ k i, fs.get? k = some i ∧ k ≠ dotP ∧ dirOf k = p ∧
+      e = { name := baseOf k, mtype := (fs.ino i).kind.mtype } :=
+  h.mem_entries hj e
+
+/-- Listings are sorted by name (for every view, whatever the archive). -/
+theorem readdir_sorted (fs : FS) (j : Nat) :
+    (fs.entries j).Pairwise (fun a b => bytesLe a.name b.name = true) :=
+  entries_sorted fs j
 
 end ClairModel.Props.C11
